@@ -12,13 +12,100 @@ replay: every terminal state is run by the real DocTest.run; at the exit
         (normal or by exception) sys.stdout, sys.stderr, sys.path,
         warnings.filters, warnings.showwarning are compared with their values
         at entry and no event loop may be running.
-import: specs/ModPath.tla ImportByPath - see harness/c17.py; the sys.path part
-        of this property for import-by-path is exercised there and here through
-        the module pre-import of the run (success and three failure kinds).
+import: specs/PathCtx.tla models PythonPathContext around an import by path
+        whose module changes sys.path itself (insert at the front, append, drop
+        the first / the last pre-existing entry, remove the temporary entry),
+        succeeding or raising; invariant Restored (sys.path afterwards = the
+        original list as changed by the module only).  Every behaviour is
+        replayed into the real context manager; import_module_from_path on real
+        files is exercised in harness/c17.py and through the pre-import of the
+        run (success and five failure kinds).
 """
 from . import common, runlib
 
 BOUNDS = {'quick': 3, 'thorough': 4}
+
+PATHCTX_INVS = ['Restored', 'NoForeignError', 'RuntimeErrorOnlyIfRemoved']
+
+
+def pathctx_cfg(maxops, deviation=('Emit',)):
+    return '\n'.join(['SPECIFICATION Spec', 'CONSTANTS', ' MaxOps = %d' % maxops, ' Deviation = {%s}' % ', '.join('"%s"' % d for d in deviation)]
+                     + ['INVARIANT %s' % i for i in PATHCTX_INVS] + ['CHECK_DEADLOCK FALSE', ''])
+
+
+def _apply_op(op):
+    import sys
+    if op == 'ins0':
+        sys.path.insert(0, 'M1')
+    elif op == 'app':
+        sys.path.append('M2')
+    elif op == 'pop0':
+        sys.path.pop(0)
+    elif op == 'rmlast':
+        idx = [i for i, e in enumerate(sys.path) if e in ('e1', 'e2', 'e3')]
+        if idx:
+            sys.path.pop(idx[-1])
+    elif op == 'rmtmp':
+        if 'TMP' in sys.path:
+            sys.path.remove('TMP')
+
+
+def pathctx_phase(out, tier):
+    """specs/PathCtx.tla: PythonPathContext around an import whose module changes sys.path; every behaviour replayed"""
+    import sys
+    import warnings
+    from . import tlaval
+    from xdoctest.utils import util_import
+    maxops = 3 if tier == 'quick' else 4
+    res = common.run_tlc('PathCtx', pathctx_cfg(maxops), printed=True, timeout=600)
+    common.tlc_must_pass(res, 'PathCtx')
+    out.add_tlc(res, 'exhaustive:PathCtx<=%d ops' % maxops)
+    if res.violated:
+        raise common.MachineryError('spec-level invariant %s violated on the unchanged spec (PathCtx):\n%s' % (res.violated, res.stdout[-2000:]))
+    n = 0
+    real = list(sys.path)
+    for raw in sorted(common.iter_printed(res)):
+        index, ops, raised, path, ghost, result = tlaval.parse_value(raw)
+        given = 0 if index == 0 else -1
+        got_result = 'ok'
+        try:
+            with warnings.catch_warnings(record=True) as wl:
+                warnings.simplefilter('always')
+                sys.path[:] = ['e1', 'e2', 'e3']
+                ctx = util_import.PythonPathContext('TMP', given)
+                ctx.__enter__()
+                for op in ops:
+                    _apply_op(op)
+                try:
+                    if raised:
+                        ctx.__exit__(ImportError, ImportError('boom'), None)
+                    else:
+                        ctx.__exit__(None, None, None)
+                    got_result = 'warned' if wl else 'ok'
+                except Exception as ex:
+                    got_result = type(ex).__name__
+                got_path = list(sys.path)
+        finally:
+            sys.path[:] = real
+        n += 1
+        out.traces += 1
+        out.evaluations += 1
+        bad = []
+        if got_path != list(path):
+            bad.append(('sys_path_after_context', list(path), got_path))
+        if got_result != result:
+            bad.append(('exit_result', result, got_result))
+        if bad:
+            out.violation({'kind': 'pathctx', 'fields': ','.join(sorted(b[0] for b in bad))},
+                          {'index_given': given, 'module_operations': list(ops), 'import_raised': raised, 'disagreements': [(f, repr(a), repr(b)) for f, a, b in bad]})
+    out.extra['pathctx_behaviours_replayed'] = n
+    common.cleanup_scratch()
+    for dev in ('NoElif', 'NoRecoverOnError'):
+        r2 = common.run_tlc('PathCtx', pathctx_cfg(maxops, deviation=(dev,)), timeout=300)
+        common.cleanup_scratch()
+        if not r2.violated:
+            raise common.MachineryError('vacuity control: deviation %s does not violate any invariant of PathCtx' % dev)
+        out.extra.setdefault('deviations_rejected', {})[dev] = r2.violated
 
 
 def nontrivial(info):
@@ -35,6 +122,7 @@ def run(tier):
             dict(label='C12/importfail', parts='C12_Parts', maxparts=2, onerrors=('return', 'raise'), modes=('native',), importoks=('FALSE',))]
     runlib.docrun_check(out, runs, nontrivial_fn=nontrivial)
     runlib.deviation_must_fail(out, 'C12_Parts', 2, 'NoStdoutRestore')
+    pathctx_phase(out, tier)
     out.assumptions = ['stderr is never swapped by the library; it is compared all the same',
                        'the doctest replaces sys.stdout by assignment inside a part; closing the capture stream is outside the property']
     from . import tracelib
